@@ -89,7 +89,17 @@ def render(sites, initial=INITIAL) -> str:
            "    @property\n",
            "    def val(self):\n",
            "        raise RuntimeError('injected fault inside the capture step')\n",
-           "BOOM = _Boom()\n"]
+           "BOOM = _Boom()\n",
+           # a captured object whose property USES the library while it is being read (the
+           # simulator decides what _reent_hook does; by default nothing)
+           "_reent_hook = [None]\n",
+           "class _Reent:\n",
+           "    @property\n",
+           "    def val(self):\n",
+           "        if _reent_hook[0] is not None:\n",
+           "            _reent_hook[0]()\n",
+           "        return 5\n",
+           "REENT = _Reent()\n"]
     for g in GLOBALS:
         out.append(f"{g.lstrip('@')} = {_lit(initial[g])}\n")
     out.append("class K0:\n")
@@ -115,6 +125,15 @@ def render(sites, initial=INITIAL) -> str:
                 f"            return {body}\n"]
         else:
             fn_site = None
+        if s.get("scope") == "param" and not fn_site:
+            # a helper function called again and again (`def make_query(ds, cut): return
+            # ds.Where(lambda e: e.pt > cut)`): the captured names are its parameters, so every
+            # call has fresh closure cells, which die when the call returns
+            out.append(f"def psite_{k}(s, c0, c1, min):\n")
+            out.append(f"    return s.{op}({lam})\n")
+            out.append(f"def pref_{k}(c0, c1, min):\n")
+            out.append(f"    return ({lam})\n")
+            continue
         if s.get("scope") == "module":
             # a call site at module level: its free names are module globals (there, `c1` is
             # the module global that the closure cells of the other sites hide)
@@ -185,13 +204,48 @@ class ClientProgram:
         def _noop(n, v=None):
             return None
 
+        def _param(k):
+            ps, pr = getattr(self.mod, f"psite_{k}"), getattr(self.mod, f"pref_{k}")
+            return (lambda s: ps(s, *self._cell_values()), lambda: pr(*self._cell_values()),
+                    _noop, _noop)
+
         self.fns = [
             (getattr(self.mod, f"gsite_{k}"), getattr(self.mod, f"gref_{k}"), _noop, _noop)
-            if s.get("scope") == "module" else getattr(self.mod, f"make_site_{k}")()
+            if s.get("scope") == "module"
+            else _param(k) if s.get("scope") == "param" and not s.get("supply")
+            else getattr(self.mod, f"make_site_{k}")()
             for k, s in enumerate(sites)]
         self.bound = {n: True for n in ALL_NAMES}
         self.value = {n: list(initial[n]) for n in ALL_NAMES}
         self.touches = 0
+        self.cells_made = 0
+        self.run_tag = run_tag
+
+    def _cell_values(self):
+        "Current values of the names that are parameters of a helper-function site."
+        return [decode(self.value[n]) if self.bound[n] else None for n in ("c0", "c1", "min")]
+
+    # -- short-lived code ("notebook cells") -------------------------------------------------
+    def cell(self, k):
+        """Site k re-typed in a fresh notebook cell: the same text compiled again under a new
+        file name into the shared namespace.  Returns (site, ref, discard); after discard()
+        nothing refers to the cell's code objects any more (they die, and their addresses are
+        free for whatever is compiled next)."""
+        s = self.sites[k]
+        assert s.get("scope") == "module" and not s.get("supply")
+        self.cells_made += 1
+        name = f"<simdisk>/cell_{self.run_tag}_{self.cells_made}.py"
+        src = (f"def _cell_site(s):\n    return s.{s['op']}({s['lam']})\n"
+               f"def _cell_ref():\n    return ({s['lam']})\n")
+        linecache.cache[name] = (len(src), None, src.splitlines(True), name)
+        exec(compile(src, name, "exec"), self.mod.__dict__)
+        site, ref = self.mod._cell_site, self.mod._cell_ref
+        del self.mod._cell_site, self.mod._cell_ref
+
+        def discard():
+            linecache.cache.pop(name, None)
+
+        return site, ref, discard
 
     # -- bindings -------------------------------------------------------------------------
     def _alt(self):
